@@ -3,168 +3,181 @@ package main
 import (
 	"go/ast"
 	"sort"
+	"strings"
 )
 
-// C03 — request routing. Facts the model in lean/Fabio/Model/C03.lean silently depends on.
+// C03 — request routing. Facts the model in lean/Fabio/Model/C03.lean silently depends on, stated as
+// canonical guarded events (c03canon.go) so that renaming locals/parameters/receivers, hoisting or inlining a
+// sub-expression, extracting or inlining an unexported helper, guard clauses vs nested ifs, if/else vs
+// switch, and named constants vs literals do not change them.
 func init() {
 	register("C03", func(x *X) error {
-		// 1. the matcher table: key=function
+		x.UseNormalizedAST()
+
+		// roles instead of names: the three matcher functions are "the values of route.Matcher", the per-host
+		// scan is "the method LookupHost returns a call of"
+		alias := map[string]string{}
+		matcherFns := map[string]string{} // key -> function name
 		if e := x.valueSpec("route", "Matcher"); e != nil {
-			var kv []string
 			if cl, ok := e.(*ast.CompositeLit); ok {
 				for _, el := range cl.Elts {
 					if p, ok := el.(*ast.KeyValueExpr); ok {
 						k, _ := x.strLit(p.Key)
-						kv = append(kv, k+"="+x.src(p.Value))
+						if id, ok := p.Value.(*ast.Ident); ok {
+							matcherFns[k] = id.Name
+							alias[id.Name] = "matcher:" + k
+						} else {
+							x.fail("route.Matcher[%q] is not a function name: %s", k, x.src(p.Value))
+						}
 					}
 				}
 			} else {
 				x.fail("route.Matcher is not a composite literal")
 			}
-			sort.Strings(kv)
-			x.defStrList("matcherTable", kv)
 		}
-		// 2. the three matchers: what they return
-		for _, m := range []string{"prefixMatcher", "globMatcher", "iPrefixMatcher"} {
-			if fd := x.funcDecl("route", "", m); fd != nil {
-				x.defStrList(m+"Returns", x.returns(fd))
-				x.defStrList(m+"Assigns", x.assigns(fd))
+		scanFn := ""
+		if fd := x.funcDecl("route", "Table", "LookupHost"); fd != nil && fd.Body != nil {
+			ast.Inspect(fd.Body, func(n ast.Node) bool {
+				if r, ok := n.(*ast.ReturnStmt); ok && len(r.Results) == 1 {
+					if call, ok := r.Results[0].(*ast.CallExpr); ok {
+						scanFn = c03Callee(call.Fun)
+					}
+				}
+				return true
+			})
+		}
+		if scanFn == "" {
+			x.fail("route: LookupHost does not return a call")
+		} else {
+			alias[scanFn] = "scanHost"
+		}
+		// anchors: unexported functions the facts talk about (the first five are also named by the hook file
+		// route/verif_c03.go, so renaming them breaks the harness build anyway)
+		anchors := []string{"normalizeHostNoLower", "matchingHosts", "matchingHostNoGlob", "sortHostsReverseHostPort", "globMatch", scanFn}
+		cn := func() *canon { return newCanon(x, "route", anchors, alias) }
+
+		// 1. the matcher table: key = what the function returns
+		var mt []string
+		for k, fn := range matcherFns {
+			if fd := x.funcDecl("route", "", fn); fd != nil {
+				mt = append(mt, k+" => "+strings.Join(c03Pick(cn().describe(fd), c03Kinds("return", "assign", "store")), " ; "))
 			}
 		}
+		sort.Strings(mt)
+		x.defStrList("matcherTable", mt)
 		// globMatch: g.Match(s) under a recover that turns a panic of the library into "no match"
 		if fd := x.funcDecl("route", "", "globMatch"); fd != nil {
-			x.defStrList("globMatchReturns", x.returns(fd))
-			x.defStrList("globMatchAssigns", x.assigns(fd))
-			x.defNat("globMatchRecovers", uint64(len(x.calls(fd, "recover"))))
+			x.defStrList("globMatchEvents", c03Pick(cn().describe(fd), c03Kinds("return", "freturn", "assign", "call:recover")))
 		}
-		// 3. the order of a host's routes
+		// 2. the order of a host's routes
 		if fd := x.funcDecl("route", "Routes", "Less"); fd != nil {
-			x.defStrList("lessReturns", x.returns(fd))
-			x.defStrList("lessAssigns", x.assigns(fd))
+			x.defStrList("lessEvents", c03Pick(cn().describe(fd), c03Kinds("return", "assign", "store")))
 		}
-		// 4. default ports: condition and literal of every HasSuffix test in normalizeHostNoLower
+		// 3. default ports: which suffix is stripped under which value of the TLS flag (2nd parameter), in either
+		// of the equivalent forms `if c && HasSuffix(h, s) { return h[:len(h)-len(s)] }` / `TrimSuffix(h, s)`
 		if fd := x.funcDecl("route", "", "normalizeHostNoLower"); fd != nil {
-			var conds []string
-			ast.Inspect(fd, func(n ast.Node) bool {
-				if is, ok := n.(*ast.IfStmt); ok {
-					conds = append(conds, x.src(is.Cond))
+			var rules, other []string
+			for _, e := range cn().describe(fd) {
+				if e.Kind != "return" {
+					continue
 				}
-				return true
-			})
-			x.defStrList("defaultPortConds", conds)
-			x.defStrList("defaultPortReturns", x.returns(fd))
+				pol := "any"
+				hasT, hasF := false, false
+				for _, g := range e.Guards {
+					if g == "p1" {
+						hasT = true
+					}
+					if g == "!p1" {
+						hasF = true
+					}
+				}
+				switch {
+				case hasT && !hasF:
+					pol = "tls"
+				case hasF && !hasT:
+					pol = "plain"
+				}
+				if lit, ok := c03CutBoth(e.Text, "strings.TrimSuffix(p0, ", ")"); ok {
+					rules = append(rules, pol+" strip "+lit)
+					continue
+				}
+				if lit, ok := c03CutBoth(e.Text, "p0[:len(p0) - len(", ")]"); ok {
+					guarded := false
+					for _, g := range e.Guards {
+						if g == "strings.HasSuffix(p0, "+lit+")" {
+							guarded = true
+						}
+					}
+					if guarded {
+						rules = append(rules, pol+" strip "+lit)
+						continue
+					}
+				}
+				other = append(other, e.Text)
+			}
+			sort.Strings(rules)
+			x.defStrList("defaultPortRules", rules)
+			x.defStrList("defaultPortOtherReturns", c03Dedup(other))
 		}
 		if fd := x.funcDecl("route", "", "normalizeHost"); fd != nil {
-			x.defStrList("normalizeHostReturns", x.returns(fd))
+			x.defStrList("normalizeHostEvents", c03Pick(cn().describe(fd), c03Kinds("return", "assign", "store")))
 		}
-		// 5. host selection: how the request host and the pattern are normalised, no MustCompile on the request path
+		// 4. host selection
 		for _, m := range []string{"matchingHosts", "matchingHostNoGlob"} {
 			if fd := x.funcDecl("route", "Table", m); fd != nil {
-				x.defStrList(m+"Assigns", x.assigns(fd))
-				x.defNat(m+"MustCompile", uint64(len(x.calls(fd, "glob.MustCompile"))))
-				var conds []string
-				ast.Inspect(fd, func(n ast.Node) bool {
-					if is, ok := n.(*ast.IfStmt); ok {
-						conds = append(conds, x.src(is.Cond))
-					}
-					return true
-				})
-				x.defStrList(m+"Conds", conds)
+				evs := cn().describe(fd)
+				x.defStrList(m+"Events", c03Pick(evs, c03Kinds("range", "assign", "return", "call:MustCompile", "call:Get")))
 			}
 		}
-		// 6. the host order
+		// 5. the host order
 		if fd := x.funcDecl("route", "", "sortHostsReverseHostPort"); fd != nil {
-			x.defStrList("sortHostsReturns", x.returns(fd))
-			x.defStrList("sortHostsAssigns", x.assigns(fd))
-			var calls []string
-			ast.Inspect(fd, func(n ast.Node) bool {
-				if c, ok := n.(*ast.CallExpr); ok {
-					f := x.src(c.Fun)
-					if f == "sort.Slice" || f == "sort.SliceStable" || f == "sort.Sort" || f == "sort.Stable" || f == "sort.Strings" {
-						calls = append(calls, f)
-					}
-				}
-				return true
-			})
-			x.defStrList("sortHostsSortCalls", calls)
+			x.defStrList("sortHostsEvents", c03Pick(cn().describe(fd),
+				c03Kinds("store", "return", "freturn", "call:Slice", "call:SliceStable", "call:Sort", "call:Stable", "call:Strings")))
 		}
-		if fd := x.funcDecl("route", "", "isHostPattern"); fd != nil {
-			x.defStrList("isHostPatternReturns", x.returns(fd))
-		}
-		// 7. Lookup: the "" fallback is appended once, after host selection, before the loop; lookup lower-cases
+		// 6. Lookup: host selection by the glob switch, the "" fallback appended after it, the scan of every host
 		if fd := x.funcDecl("route", "Table", "Lookup"); fd != nil {
-			var appendPos, rangePos, selPos []int
-			ast.Inspect(fd, func(n ast.Node) bool {
-				switch v := n.(type) {
-				case *ast.AssignStmt:
-					s := x.src(v)
-					if s == `hosts = append(hosts, "")` {
-						appendPos = append(appendPos, int(v.Pos()))
-					}
-					if s == "hosts = t.matchingHostNoGlob(req)" || s == "hosts = t.matchingHosts(req, globCache)" {
-						selPos = append(selPos, int(v.Pos()))
-					}
-				case *ast.RangeStmt:
-					if x.src(v.X) == "hosts" {
-						rangePos = append(rangePos, int(v.Pos()))
-					}
-				}
-				return true
-			})
-			ok := len(appendPos) == 1 && len(rangePos) == 1 && len(selPos) == 2 &&
-				selPos[0] < appendPos[0] && selPos[1] < appendPos[0] && appendPos[0] < rangePos[0]
-			x.defBool("lookupFallbackAppendedLast", ok)
-			var conds []string
-			ast.Inspect(fd, func(n ast.Node) bool {
-				if is, ok := n.(*ast.IfStmt); ok {
-					c := x.src(is.Cond)
-					if c == "globDisabled" || c == "!globDisabled" {
-						conds = append(conds, c+" => "+x.src(is.Body.List[0]))
-					}
-				}
-				return true
-			})
-			x.defStrList("lookupGlobSwitch", conds)
-			var looks []string
-			for _, c := range x.calls(fd, "t.lookup") {
-				looks = append(looks, x.src(c))
-			}
-			x.defStrList("lookupCalls", looks)
+			x.defStrList("lookupEvents", c03Pick(cn().describe(fd),
+				c03Kinds("call:matchingHosts", "call:matchingHostNoGlob", "call:append", "range", "call:scanHost", "return")))
 		}
-		if fd := x.funcDecl("route", "Table", "lookup"); fd != nil {
-			first := ""
-			if len(fd.Body.List) > 0 {
-				first = x.src(fd.Body.List[0])
+		if scanFn != "" {
+			if fd := x.funcDecl("route", "Table", scanFn); fd != nil {
+				x.defStrList("scanHostEvents", c03Pick(cn().describe(fd), c03Kinds("assign", "range", "return")))
 			}
-			x.defStr("lookupFirstStmt", first)
-			var rng []string
-			ast.Inspect(fd, func(n ast.Node) bool {
-				if r, ok := n.(*ast.RangeStmt); ok {
-					rng = append(rng, x.src(r.X))
-				}
-				return true
-			})
-			x.defStrList("lookupRanges", rng)
 		}
 		if fd := x.funcDecl("route", "Table", "LookupHost"); fd != nil {
-			x.defStrList("lookupHostReturns", x.returns(fd))
+			x.defStrList("lookupHostEvents", c03Pick(cn().describe(fd), c03Kinds("return", "assign", "store")))
 		}
-		// 8. the callers hand Lookup the configured matcher, picker, cache and the glob switch
+		// 7. the callers hand Lookup the configured picker, matcher, cache and the glob switch
 		var callers []string
 		for _, dir := range []string{".", "proxy"} {
 			for _, f := range x.files(dir) {
-				ast.Inspect(f, func(n ast.Node) bool {
-					if c, ok := n.(*ast.CallExpr); ok {
-						if se, ok := c.Fun.(*ast.SelectorExpr); ok && se.Sel.Name == "Lookup" && len(c.Args) == 6 {
-							var as []string
-							for _, a := range c.Args[2:] {
-								as = append(as, x.src(a))
+				for _, d := range f.Decls {
+					fd, ok := d.(*ast.FuncDecl)
+					if !ok || fd.Body == nil {
+						continue
+					}
+					has := false
+					ast.Inspect(fd.Body, func(n ast.Node) bool {
+						if c, ok := n.(*ast.CallExpr); ok && c03Callee(c.Fun) == "Lookup" && len(c.Args) == 6 {
+							has = true
+						}
+						return !has
+					})
+					if !has {
+						continue
+					}
+					c := newCanon(x, dir, nil, nil)
+					for _, e := range c.describe(fd) {
+						if e.Kind == "call" && e.Callee == "Lookup" {
+							if i := strings.Index(e.Text, ".Lookup("); i >= 0 {
+								args := c03SplitArgs(strings.TrimSuffix(e.Text[i+len(".Lookup("):], ")"))
+								if len(args) == 6 {
+									callers = append(callers, strings.Join(args[2:], ", "))
+								}
 							}
-							callers = append(callers, x.src(se.X)+": "+joinComma(as))
 						}
 					}
-					return true
-				})
+				}
 			}
 		}
 		sort.Strings(callers)
@@ -173,45 +186,52 @@ func init() {
 	})
 }
 
-func joinComma(as []string) string {
-	s := ""
-	for i, a := range as {
-		if i > 0 {
-			s += ", "
-		}
-		s += a
+func c03CutBoth(s, pre, suf string) (string, bool) {
+	if strings.HasPrefix(s, pre) && strings.HasSuffix(s, suf) && len(s) >= len(pre)+len(suf) {
+		return s[len(pre) : len(s)-len(suf)], true
 	}
-	return s
+	return "", false
 }
 
-// returns lists the rendered result expressions of every return statement of fd, in source order
-// (function literals inside fd included).
-func (x *X) returns(fd *ast.FuncDecl) []string {
-	var out []string
-	ast.Inspect(fd, func(n ast.Node) bool {
-		if r, ok := n.(*ast.ReturnStmt); ok {
-			s := ""
-			for i, e := range r.Results {
-				if i > 0 {
-					s += ", "
-				}
-				s += x.src(e)
-			}
+func c03Dedup(xs []string) []string {
+	out := []string{}
+	seen := map[string]bool{}
+	for _, s := range xs {
+		if !seen[s] {
+			seen[s] = true
 			out = append(out, s)
 		}
-		return true
-	})
+	}
 	return out
 }
 
-// assigns lists the rendered assignment statements of fd, in source order.
-func (x *X) assigns(fd *ast.FuncDecl) []string {
+// c03SplitArgs splits a rendered argument list at top-level commas.
+func c03SplitArgs(s string) []string {
 	var out []string
-	ast.Inspect(fd, func(n ast.Node) bool {
-		if a, ok := n.(*ast.AssignStmt); ok {
-			out = append(out, x.src(a))
+	depth, start := 0, 0
+	inStr := false
+	for i := 0; i < len(s); i++ {
+		ch := s[i]
+		switch {
+		case inStr:
+			if ch == '\\' {
+				i++
+			} else if ch == '"' {
+				inStr = false
+			}
+		case ch == '"':
+			inStr = true
+		case ch == '(' || ch == '[' || ch == '{':
+			depth++
+		case ch == ')' || ch == ']' || ch == '}':
+			depth--
+		case ch == ',' && depth == 0:
+			out = append(out, strings.TrimSpace(s[start:i]))
+			start = i + 1
 		}
-		return true
-	})
+	}
+	if strings.TrimSpace(s[start:]) != "" {
+		out = append(out, strings.TrimSpace(s[start:]))
+	}
 	return out
 }
